@@ -641,6 +641,16 @@ int32 eccTestPoint(psPool_t *pool, psEccPoint_t *P, pstm_int *prime,
         pstm_clear(&t1);
         return err;
     }
+    /* The coordinates must be field elements: an encoding of x + k*p
+       is not a valid encoding of the point (SEC 1, 2.3.4). */
+    if (pstm_cmp(&P->x, prime) != PSTM_LT || pstm_cmp(&P->y, prime) != PSTM_LT)
+    {
+        psTraceCrypto("Supplied EC public point coordinate not below p\n");
+        pstm_clear(&t1);
+        pstm_clear(&t2);
+        return PS_LIMIT_FAIL;
+    }
+
     /*  Pre-allocated digit. TODO: haven't fully explored max paDlen */
     paDlen = (prime->used * 2 + 1) * sizeof(pstm_digit);
     if ((paD = psMalloc(pool, paDlen)) == NULL)
